@@ -549,7 +549,22 @@ func min(a, b int) int {
 var badChars = []byte{'!', ' ', '-', '_', '=', '\n', '*', '.', '~', '\t'}
 
 func genData(r *hx.Rand, n int) []byte {
-	return []byte(base64.StdEncoding.EncodeToString(genBytes(r, n)))
+	d := []byte(base64.StdEncoding.EncodeToString(genBytes(r, n)))
+	// now and then a padded quantum whose unused bits are not zero: StdEncoding
+	// (not Strict) accepts it and decodes to the same bytes
+	if l := len(d); l >= 4 && d[l-1] == '=' && r.Chance(1, 6) {
+		const alphabet = "ABCDEFGHIJKLMNOPQRSTUVWXYZabcdefghijklmnopqrstuvwxyz0123456789+/"
+		i := l - 2
+		mask := 3 // two unused bits before one pad
+		if d[l-2] == '=' {
+			i, mask = l-3, 15
+		}
+		v := strings.IndexByte(alphabet, d[i])
+		if v >= 0 {
+			d[i] = alphabet[v|(1+r.Intn(mask))]
+		}
+	}
+	return d
 }
 
 // corrupt turns valid base64 text into something one of the usual ways.
@@ -653,6 +668,30 @@ func genReceiver(r *hx.Rand) recvCase {
 				seq = (rc.seq + []int{1, 65535, 2, 65534, 32768}[r.Intn(5)]) % 65536
 			}
 			ev = append(ev, evJ{Op: "data", SID: sid, IQ: r.Chance(2, 3), Seq: strconv.Itoa(seq), Data: hx.Hex(genData(r, r.Intn(8)))})
+		case p >= 11 && p < 14 && r.Chance(1, 3): // two defects at once: the first in the order sequence, size, encoding decides
+			if live {
+				seq := rc.seq
+				d := genData(r, 3+r.Intn(6))
+				switch r.Intn(3) {
+				case 0: // out of sequence and undecodable
+					seq = (rc.seq + 1 + r.Intn(3)) % 65536
+					d = corrupt(r, d)
+				case 1: // out of sequence and too large
+					seq = (rc.seq + 65535) % 65536
+					if rc.max > 0 && rc.max < 3000 {
+						d = genData(r, rc.max+4)
+					}
+				default: // too large and undecodable
+					if rc.max > 0 && rc.max < 3000 {
+						d = append(genData(r, rc.max+4), '*')
+					} else {
+						d = corrupt(r, d)
+					}
+				}
+				if _, err := base64.StdEncoding.DecodeString(string(d)); err != nil || seq != rc.seq {
+					ev = append(ev, evJ{Op: "data", SID: sid, IQ: r.Chance(2, 3), Seq: strconv.Itoa(seq), Data: hx.Hex(d)})
+				}
+			}
 		case p < 14: // undecodable
 			seq := 0
 			if live {
